@@ -591,7 +591,7 @@ def build_defaults(env):
     elif fl == "aix":
         R = seq(2100 + k, 8)
         R[6] = C("SACTIVE")
-        R[7] = (0x21 << 32) | 0x0007
+        R[7] = (1 << 63) | (0x21 << 32) | 0x0007       # a 64-bit AIX dev_t carries a flag in bit 63
         D.update({
             "proc_basic_info": tuple(R),
             "proc_cred": tuple(seq(1600 + k, 6)),
